@@ -402,6 +402,36 @@ def duplicates(stats: Stats) -> list[Violation]:
         if sorted(got) != sorted(want):
             out.append(Violation('C15', 'duplicates', f"{name}: selected {got}, expected {want}", dict(kind='duplicates', case=name),
                                  scenario='table', labels=None))  # type: ignore[arg-type]
+    # one function stacked twice under ONE id with DIFFERENT criteria (labels a / labels b; when-callbacks), in both orders:
+    # invoked once if either declaration holds, never if none does - and the object is (pre)matched exactly then.
+    for where in ('labels', 'annotations', 'when'):
+        for order in (0, 1):
+            reg = kopf.OperatorRegistry()
+            decls: list[dict[str, Any]] = [{where: {'a': 'x'}}, {where: {'b': 'x'}}] if where != 'when' else \
+                [{'when': lambda labels, **_: labels.get('a') == 'x'}, {'when': lambda labels, **_: labels.get('b') == 'x'}]
+            for kw in (decls if order == 0 else decls[::-1]):
+                kopf.on.create('kopfexamples', id='stacked', registry=reg, **kw)(fn)
+            for has_a, has_b in itertools.product((False, True), repeat=2):
+                d = {k: 'x' for k, on in (('a', has_a), ('b', has_b)) if on}
+                meta: dict[str, Any] = {'name': 'a', 'uid': 'u'}
+                if d:
+                    meta['labels' if where == 'when' else where] = d
+                raw2 = {'apiVersion': 'kopf.dev/v1', 'kind': 'KopfExample', 'metadata': meta, 'spec': {'f': 'x'}}
+                ess = {'spec': {'f': 'x'}, **({'metadata': {('labels' if where == 'when' else where): d}} if d else {})}
+                cause = causes.ChangingCause(resource=resource, indices={}, logger=logging.getLogger('kv'), patch=patches.Patch(), body=bodies.Body(raw2),  # type: ignore[arg-type]
+                                             memo=None, initial=False, reason=causes.Reason.CREATE, diff=diffs.diff(None, ess), old=None, new=ess)  # type: ignore[arg-type]
+                got = [h.id for h in reg._changing.get_handlers(cause)]
+                pre = reg._changing.prematch(cause)
+                fin = reg._changing.requires_finalizer(cause)
+                stats.executions += 1
+                want_n = 1 if (has_a or has_b) else 0
+                if len(got) != want_n or pre != bool(want_n) or fin:
+                    out.append(Violation('C15', 'duplicates',
+                                         f"one function stacked twice under id 'stacked' with {where} criteria on a / on b (order {order}); object has a={has_a}, b={has_b}: "
+                                         f"selected {got}, prematch={pre}, requires_finalizer={fin}; expected {want_n} invocation(s), prematch={bool(want_n)}",
+                                         dict(kind='duplicates', case='stacked-different-criteria', where=where,
+                                              what='selection' if len(got) != want_n else ('prematch' if pre != bool(want_n) else 'finalizer')),
+                                         scenario='table', labels=None))  # type: ignore[arg-type]
     return out
 
 
